@@ -27,6 +27,16 @@ func c07Modes(kind string, form string) []string {
 	if kind == "arith" || kind == "unary" {
 		m = append(m, "incr:C", "incr:S")
 	}
+	if kind == "arith" {
+		switch form {
+		case "TT":
+			m = append(m, "incr=a", "incr=b")
+		case "ST":
+			m = append(m, "incr=b")
+		default:
+			m = append(m, "incr=a")
+		}
+	}
 	if kind == "cmp" {
 		out := []string{}
 		for _, x := range m {
@@ -127,6 +137,9 @@ func runC07(r *core.Run) {
 						continue
 					}
 					for _, mode := range c07Modes(ok.kind, form) {
+						if strings.HasPrefix(mode, "incr=") && (ok.op == "MinBetween" || ok.op == "MaxBetween") {
+							continue // their increment handling is a recorded finding as it is (F-C07-minmax-incr-overwrites)
+						}
 						for _, la := range lays {
 							lbs := lays
 							if form != "TT" {
